@@ -71,6 +71,7 @@ type Conn struct {
 	BeforeDeliver func(d *Delivery)
 	AfterDeliver  func(d *Delivery)
 	Paused        bool
+	lifecycle     bool
 }
 
 type connWriter struct {
@@ -171,13 +172,14 @@ func (c *Conn) deliver(it qitem) {
 	}
 	c.Del = append(c.Del, d)
 	d.Pre = w.Stamp()
+	if t := simrt.Self(); t != nil {
+		// the payload left the queue: from here on it is an operation in flight
+		t.OpSeq = d.Pre
+	}
 	if c.BeforeDeliver != nil {
 		c.BeforeDeliver(d)
 	}
 	d.Begin = w.Logf("deliver %s %s %s", c.Name, it.tag, DescribeDatagram(d.D, it.raw))
-	if t := simrt.Self(); t != nil {
-		t.OpSeq = d.Begin
-	}
 	c.Handling = true
 	rd := it.rd
 	if rd == nil {
@@ -262,6 +264,10 @@ func (w *World) NewNode(name, addr string, featureSet model.NetworkManagementFea
 func (n *Node) Connect(peerName string, onWrite func(s *Sent), bind func(c *Conn)) *Conn {
 	ski := "ski-" + peerName + "-at-" + n.Name
 	c := n.Conns[peerName]
+	if c != nil {
+		c.lockLifecycle()
+		defer c.unlockLifecycle()
+	}
 	if c == nil {
 		c = &Conn{W: n.W, Name: peerName + ">" + n.Name, Ski: ski, Node: n}
 		n.Conns[peerName] = c
@@ -284,13 +290,26 @@ func (n *Node) Connect(peerName string, onWrite func(s *Sent), bind func(c *Conn
 	return c
 }
 
-// Disconnect removes the connection through the stack's API.
+// Disconnect removes the connection through the stack's API. Connection lifecycle operations
+// of one peer are serialised (a new connection of a SKI is not set up while the removal of
+// the previous one is still in progress). Returns false if the connection was not up.
 //
 //go:norace
-func (n *Node) Disconnect(peerName string) {
+func (n *Node) Disconnect(peerName string) bool { return n.DisconnectThen(peerName, nil) }
+
+// DisconnectThen runs then (if not nil) after the removal returned and before any other
+// lifecycle operation of this peer can begin.
+//
+//go:norace
+func (n *Node) DisconnectThen(peerName string, then func()) bool {
 	c := n.Conns[peerName]
-	if c == nil || c.Closed {
-		return
+	if c == nil {
+		return false
+	}
+	c.lockLifecycle()
+	defer c.unlockLifecycle()
+	if c.Closed {
+		return false
 	}
 	w := n.W
 	c.Closed = true
@@ -298,7 +317,22 @@ func (n *Node) Disconnect(peerName string) {
 	w.Logf("disconnect %s begin", c.Name)
 	n.Dev.RemoveRemoteDeviceConnection(c.Ski)
 	c.RemovedAt = w.Logf("disconnect %s returned", c.Name)
+	if then != nil {
+		then()
+	}
+	return true
 }
+
+//go:norace
+func (c *Conn) lockLifecycle() {
+	if simrt.Self() != nil {
+		simrt.WaitUntil("lifecycle:"+c.Name, func() bool { return !c.lifecycle })
+	}
+	c.lifecycle = true
+}
+
+//go:norace
+func (c *Conn) unlockLifecycle() { c.lifecycle = false }
 
 // ---------------------------------------------------------------------------------------
 // canonical description of datagrams (order-insensitive arrays sorted)
